@@ -268,6 +268,7 @@ def main(argv=None):
     ap.add_argument("--runs", type=int)
     ap.add_argument("--no-selftest", action="store_true")
     ap.add_argument("--no-evidence", action="store_true")
+    ap.add_argument("--no-minimise", action="store_true", help="report the first failing case as found (development aid)")
     a = ap.parse_args(argv)
     verif_seed = int(os.environ.get("VERIF_SEED", "0") or 0)
     prop = a.prop.upper()
@@ -315,7 +316,8 @@ def main(argv=None):
         res0 = {"schedule": v["schedule"], "policy": v["policy"], "digest": v["digest"]}
         case, res, viol, seed = v["case"], res0, v["violation"], v["seed"]
         try:
-            case, res, viol, seed = harness.minimise(check, case, res0, viol, seed, budget_s=60.0 if a.tier == "quick" else 120.0)
+            if not a.no_minimise:
+                case, res, viol, seed = harness.minimise(check, case, res0, viol, seed, budget_s=60.0 if a.tier == "quick" else 120.0)
         except Exception as e:  # keep the un-minimised replay
             print("note: minimisation failed (%r); keeping the original case" % (e,))
         doc = harness.replay_doc(check, case, seed, v["idx"], verif_seed, res, viol)
